@@ -18,8 +18,11 @@ import time
 from .core import env, recorder, util
 
 ROOT = env.VERIF_ROOT
-EVIDENCE_DIR = os.path.join(ROOT, "evidence")
-REPLAY_DIR = os.path.join(ROOT, "replays")
+# Runs against a scratch copy of the repository (self-test of the monitors, SEMPLER_SRC set) must
+# never overwrite the evidence of /repo: they write below $VERIF_OUT instead.
+_OUT = os.environ.get("VERIF_OUT") or (ROOT if not os.environ.get("SEMPLER_SRC") else tempfile.gettempdir() + "/vf-selftest-out")
+EVIDENCE_DIR = os.path.join(_OUT, "evidence")
+REPLAY_DIR = os.path.join(_OUT, "replays")
 KNOWN = os.path.join(ROOT, "known_findings.txt")
 
 
